@@ -4,7 +4,7 @@
 **/
 use swc_common::util::take::Take;
 use swc_ecma_ast::*;
-use swc_ecma_visit::{Visit, VisitMut, VisitMutWith};
+use swc_ecma_visit::{Visit, VisitMut, VisitMutWith, VisitWith};
 
 use crate::{
     telemetry::Telemetry,
@@ -73,6 +73,17 @@ impl OperationTransformVisitor<'_> {
 }
 
 impl Visit for OperationTransformVisitor<'_> {}
+
+/// registers every identifier of a subtree that is not instrumented, for the reserved name check
+struct VariableRegistrar<'a> {
+    ident_provider: &'a mut dyn IdentProvider,
+}
+
+impl Visit for VariableRegistrar<'_> {
+    fn visit_ident(&mut self, ident: &Ident) {
+        self.ident_provider.register_variable(ident);
+    }
+}
 
 impl VisitMut for OperationTransformVisitor<'_> {
     fn visit_mut_expr(&mut self, expr: &mut Expr) {
@@ -164,10 +175,21 @@ impl VisitMut for OperationTransformVisitor<'_> {
             Expr::Unary(unary_expr) => {
                 if UnaryOp::Delete != unary_expr.op {
                     expr.visit_mut_children_with(self);
+                } else {
+                    // not instrumented, but its identifiers can still clash with the injected variables
+                    unary_expr.arg.visit_with(&mut VariableRegistrar {
+                        ident_provider: self.ident_provider,
+                    });
                 }
             }
 
             Expr::Arrow(arrow) => {
+                // parameters (and their defaults) are not instrumented, but their identifiers can
+                // still clash with the injected variables of this block
+                arrow.params.visit_with(&mut VariableRegistrar {
+                    ident_provider: self.ident_provider,
+                });
+
                 let transform_result = ArrowTransform::to_dd_arrow_expr(arrow);
                 if transform_result.is_modified() {
                     expr.map_with_mut(|e| transform_result.expr.unwrap_or(e));
